@@ -1055,6 +1055,7 @@ theorem getEmpty_spec (s : PS) (hi : Inv s) (x : PItem) (s' : PS) (h : getEmpty 
 /-- what `termStep` guarantees about the state it hands back -/
 def TermSpec (s1 : PS) : PRes TermStep → Prop
   | .ok (.stop s2) => Le s1 s2
+  | .ok (.skip s2) => Adv s1 s2
   | .ok (.push s3 true) => Adv s1 s3
   | .ok (.push s3 false) => Le s1 s3
   | .outOfFuel _ => False
@@ -1063,17 +1064,12 @@ def TermSpec (s1 : PS) : PRes TermStep → Prop
 theorem termStep_spec (term : List PItem) (s1 : PS) (hi : Inv s1) : TermSpec s1 (termStep term s1) := by
   unfold termStep
   by_cases ht : term.isEmpty = true
-  · simp only [ht, if_true, Bool.true_and]
+  · simp only [ht, if_true]
     rcases expect_cases s1 .comma hi (by decide) with ⟨he, h1⟩ | he
-    · simp only [he, Bool.not_true, Bool.false_eq_true, if_false]
-      split
-      · trivial
-      · rcases expect_cases s1.advance .comma h1.inv (by decide) with ⟨he2, h2⟩ | he2
-        · simp only [he2]; exact h1.trans h2
-        · simp only [he2]; exact h1.toLe
-    · simp only [he, Bool.not_false, if_true]
+    · simp only [he, if_true]; exact h1
+    · simp only [he, Bool.false_eq_true, if_false]
       exact Le.refl s1 hi
-  · simp only [ht, Bool.false_eq_true, if_false, Bool.false_and]
+  · simp only [ht, Bool.false_eq_true, if_false]
     split
     · trivial
     · rcases expect_cases s1 .comma hi (by decide) with ⟨he2, h2⟩ | he2
@@ -1110,6 +1106,9 @@ theorem inputLoop_spec : ∀ (fuel : Nat) (s : PS) (inputs : List (List PItem)),
         · have h2 := termStep_spec term s1 h1.inv
           split
           · rename_i s2 hy; rw [hy] at h2; exact h1.trans h2
+          · rename_i s2 hy; rw [hy] at h2
+            have ha : Adv s s2 := h1.trans_adv h2
+            exact loop_step ha (ih _ _ ha.inv (measure_lt ha hf))
           · rename_i s3 hy; rw [hy] at h2
             have ha : Adv s s3 := h1.trans_adv h2
             exact loop_step ha (ih _ _ ha.inv (measure_lt ha hf))
@@ -1181,6 +1180,9 @@ theorem outputLoop_spec : ∀ (fuel : Nat) (s : PS) (outputs : List (List PItem)
         · have h2 := termStep_spec term s1 h1.inv
           split
           · rename_i s2 hy; rw [hy] at h2; exact h1.trans h2
+          · rename_i s2 hy; rw [hy] at h2
+            have ha : Adv s s2 := h1.trans_adv h2
+            exact loop_step ha (ih _ _ ha.inv (measure_lt ha hf))
           · rename_i s3 hy; rw [hy] at h2
             have ha : Adv s s3 := h1.trans_adv h2
             exact loop_step ha (ih _ _ ha.inv (measure_lt ha hf))
